@@ -156,7 +156,9 @@ def canary_unit(spec, features=()):
 # that unit uper ASSUMES of generated code (tools/glue.py: rules G1-G7)
 # --------------------------------------------------------------------------
 
-def glue_unit(replay_bin, schemas, canary=False):
+def glue_unit(replay_bin, schemas, canary=False, flt=None):
+    """flt: regex over the obligation label `glue::<schema>::<Type as Trait>::<fn>` / `glue::<schema>::<proof fn>`; obligations outside
+    it belong to other properties: they are verified in the same run but neither counted nor reported for this property"""
     import glue
     parts = []
     info = []
@@ -164,14 +166,14 @@ def glue_unit(replay_bin, schemas, canary=False):
         path = os.path.join(VERIF, 'contracts', 'zoo', sch)
         try:
             txt = glue.macro_output(replay_bin, path)
-            g, rules = glue.transform(txt, REPO)
+            g, rules = glue.transform(txt, REPO, glue.parse_facts(open(path).read()))
             n_fns = len(re.findall(r'(?<!spec )\bfn \w+', g))
             if canary:
                 g, n_ins = glue.insert_canaries(g)
             else:
                 n_ins = 0
         except glue.GlueError as ex:
-            raise Undecided('the glue rules G1-G7 do not cover what the macros of this tree emit for %s: %s' % (sch, ex))
+            raise Undecided('the glue rules G1-G13 do not cover what the macros of this tree emit for %s: %s' % (sch, ex))
         except subprocess.TimeoutExpired:
             raise Undecided('replay gen %s did not return' % sch)
         mod = 'glue_' + re.sub(r'\W', '_', sch.rsplit('.', 1)[0])
@@ -183,49 +185,52 @@ def glue_unit(replay_bin, schemas, canary=False):
     r = verus_unit('glue.spec', suffix='_canary' if canary else '')
     r['glue'] = info
     r['verified_raw'] = r['verified']
-    # attribute diagnostics inside the generated region to `glue::<schema>::<Type>::<fn>`
+    # label every generated function: `glue::<schema>::<Type as Trait>::<fn>` resp. `glue::<schema>::<proof fn>`
     lines = open(r['gen']).read().split('\n')
     region = {}
+    label_at = {}       # line -> label of the function that starts there
     cur = None
+    cur_impl = None
     for i, l in enumerate(lines, 1):
         if l.startswith('// VERIF-GLUE-BEGIN '):
             cur = l.split(' ', 2)[2].strip()
+            cur_impl = None
         elif l.startswith('// VERIF-GLUE-END '):
             cur = None
         elif cur:
             region[i] = cur
+            m = re.match(r'impl(?:<[^>]*>)? (.+?) for (\w+)', l)
+            if m:
+                cur_impl = '%s as %s' % (m.group(2), m.group(1).strip())
+            m = re.match(r'\s*(proof )?fn (\w+)', l)
+            if m:
+                label_at[i] = ('glue::%s::%s' % (cur, m.group(2))) if m.group(1) else ('glue::%s::%s::%s' % (cur, cur_impl or '?', m.group(2)))
+    starts = sorted(label_at)
+    import bisect
+    def owner(ln):
+        k = bisect.bisect_right(starts, ln) - 1
+        return (starts[k], label_at[starts[k]]) if k >= 0 else (None, None)
     for f in r['failures']:
         inside = [ln for ln in f['lines'] + [int(x) for x in re.findall(r'^\s*(\d+) \|', f['diagnostic'], re.M)] if ln in region]
         if not inside:
             continue
+        # a diagnostic names the callee's contract line and the generated line: the generated one is the one inside the region
         ln = inside[0]
-        fn = ty = None
-        k = ln
-        while k >= 1 and k in region:
-            t = lines[k - 1]
-            if fn is None:
-                m = re.match(r'\s*fn (\w+)', t)
-                if m:
-                    fn = m.group(1)
-            m = re.match(r'impl(?:<[^>]*>)? (.+?) for (\w+)', t)
-            if m:
-                ty = '%s as %s' % (m.group(2), m.group(1).strip())
-                break
-            k -= 1
-        f['function'] = 'glue::%s::%s::%s' % (region[ln], ty or '?', fn or '?')
+        st, lab = owner(ln)
+        f['function'] = lab or ('glue::%s::?' % region[ln])
         f['glue'] = True
         f['repo_file'] = 'asn1rs-model/src/proc_macro + asn1rs-model/src/generate/walker.rs (macro output for contracts/zoo/%s)' % region[ln]
-        body = []
-        k2 = k
-        while k2 <= len(lines) and k2 in region and k2 <= ln:
-            body.append(lines[k2 - 1])
-            k2 += 1
-        f['glue_has_loop'] = bool(re.search(r'\bwhile\b|\bloop\s*\{|\bfor\s+\S+\s+in\b', ' '.join(b_ for b_ in body if not b_.startswith('impl'))))
-    # obligations of this unit = the generated functions (the surrounding declarations are those of unit uper and are counted there)
+        f['glue_has_loop'] = bool(st) and bool(re.search(r'\bwhile\b|\bloop\s*\{|\bfor\s+\S+\s+in\b', lines[st - 1]))
+    labels = [label_at[k] for k in starts]
+    mine = [l for l in labels if (flt is None or re.search(flt, l))]
+    others = [f for f in r['failures'] if f.get('glue') and flt is not None and not re.search(flt, f['function'])]
+    r['failures'] = [f for f in r['failures'] if f not in others]
+    r['other_property_failures'] = sorted(set(f['function'] for f in others))
+    # obligations of this unit = the generated functions relevant to the property (the surrounding declarations are those of unit uper)
     if not (r['compile_error'] or r['vir_error']):
-        total = sum(i['generated_fns'] for i in info)
-        bad = len(set(f['function'] for f in r['failures'])) if r['errors'] else 0
-        r['verified'], r['errors'] = total - min(bad, total), (bad if r['errors'] else 0)
+        bad = len(set(f['function'] for f in r['failures']))
+        r['verified'], r['errors'] = max(len(mine) - bad, 0), bad
+        r['glue_obligations'] = len(mine)
     return r
 
 
@@ -447,7 +452,7 @@ def check(pid, tier, seed):
     glue_info = None
     if cfg.get('glue') and replay_bin and not undecided:
         try:
-            rg = glue_unit(replay_bin, cfg['glue'])
+            rg = glue_unit(replay_bin, cfg['glue'], flt=cfg.get('glue_filter'))
             if rg['compile_error'] or rg['vir_error']:
                 raise Undecided('verus could not process the glue unit (the macro output uses a construct outside rules G1-G7 / the Verus subset): %s' % rg['stderr'][-2500:])
             if rg['errors'] > 0 and rg['rlimit_hit']:
@@ -456,13 +461,16 @@ def check(pid, tier, seed):
             if loops:
                 raise Undecided('generated code with a loop failed to verify (no invariant can be attached to macro output): %s' % ', '.join(loops))
             verus_runs.append(rg)
-            glue_info = rg['glue']
+            glue_info = {'schemas': rg['glue'], 'filter': cfg.get('glue_filter'), 'obligations_for_this_property': rg.get('glue_obligations'),
+                         'failures_belonging_to_other_properties': rg.get('other_property_failures', [])}
             for f in rg['failures']:
                 name = ('%s::%s' % (f['function'], f['kind'])) if f.get('glue') else '%s::%s::%s' % (rg['unit'], (f['function'] or '?'), f['kind'])
                 failed_obls.append((rg, f, name))
             if not rg['failures']:
-                cg = glue_unit(replay_bin, cfg['glue'], canary=True)
-                want = sum(i['canaries'] for i in cg['glue'])
+                cg = glue_unit(replay_bin, cfg['glue'], canary=True, flt=cfg.get('glue_filter'))
+                if cg['compile_error'] or cg['vir_error'] or not cg.get('glue_obligations'):
+                    raise Undecided('the vacuity-guard copy of the glue unit could not be processed: %s' % cg['stderr'][-800:])
+                want = cg.get('glue_obligations', 0)
                 refuted = len(set(f['function'] for f in cg['failures'] if f.get('glue') and 'assertion failed' in f['kind']))
                 canaries.append({'unit': 'glue_canary', 'expected': want, 'refuted': refuted, 'vacuous': [] if refuted >= want else ['%d generated functions' % (want - refuted)], 'wall_s': cg['wall_s']})
                 if refuted < want:
